@@ -231,10 +231,14 @@ fn run_check(prop: &str, tier: Tier) -> i32 {
         .set("rule", info.rule.as_str())
         .set("samples", J::Arr(samples))
         .set("exhaustive", info.exhaustive && !capped)
-        .set("bounds", info.bounds.clone())
-        .set("states", g("states").max(g("env_nodes")))
-        .set("transitions", g("transitions").max(g("actions_compared")))
-        .set("traces_validated_against_impl", g("traces_validated").max(g("executions")));
+        .set("bounds", info.bounds.clone());
+    let states = g("states").max(g("env_nodes"));
+    let transitions = g("transitions").max(g("actions_compared"));
+    if states > 0 && transitions > 0 {
+        cov.put("states", states);
+        cov.put("transitions", transitions);
+        cov.put("traces_validated_against_impl", g("traces_validated").max(g("executions")).max(g("evaluations")));
+    }
     let mut counters = J::obj();
     for (k, v) in &stats {
         counters.put(k, *v);
